@@ -2,7 +2,7 @@
 from __future__ import annotations
 import ast
 from typing import List, Dict, Optional, Tuple
-from ..model import Model, FuncInfo, own_nodes, norm_stmt, AnalysisError, AnchorError, enclosing_stmt, ancestors
+from ..model import Model, FuncInfo, own_nodes, norm_stmt, AnalysisError, AnchorError, enclosing_stmt, ancestors, has_form
 from ..report import RuleResult
 from ..flow import function_defs, names_loaded
 from ..cfg import CFG, stmt_dominates
@@ -247,7 +247,8 @@ def _take(model: Model, T: RuleResult):
     # mode normalisation in the public wrapper
     sy = model.func(PUB, "symeig")
     src = ast.unparse(sy.node)
-    if "mode = mode.lower()" in src and "if mode == 'uppermost':\n        mode = 'uppest'" in src:
+    from ..model import has_form
+    if has_form(sy.node, "mode = mode.lower()", "if mode == 'uppermost':\n    mode = 'uppest'"):
         T.ok(sy.fq, "symeig lower-cases the mode and maps 'uppermost' to the handled spelling 'uppest'")
     else:
         T.bad(sy, sy.node, "symeig must lower-case `mode` and map 'uppermost' to 'uppest' before dispatch")
@@ -405,7 +406,7 @@ def _davidson(model: Model, D: RuleResult):
     brk = [s for s in loop.body if isinstance(s, ast.If) and any(isinstance(b, ast.Break) for b in s.body)]
     tests = [ast.unparse(s.test) for s in brk]
     eps = [p for p in f.params() + f.kwonly() if "eps" in p]
-    if eps and any(t == "max_resid < %s" % eps[0] for t in tests) and "max_resid = resid.abs().max()" in src:
+    if eps and any(t == "max_resid < %s" % eps[0] for t in tests) and has_form(loop, "max_resid = resid.abs().max()"):
         D.ok(f.fq, "the iteration stops when max|residual| < %s (all requested pairs, all batches)" % eps[0])
     else:
         D.bad(f, brk[0] if brk else loop, "the loop must stop on max|resid| < min_eps with max_resid the largest residual entry")
@@ -473,7 +474,8 @@ def _davidson(model: Model, D: RuleResult):
     if not all_via_qr:
         D.bad(iv, ivrets[0] if ivrets else iv.node, "_set_initial_v has an exit that does not go through tallqr: that start block is not M-orthonormal, and Davidson's cached A V "
               "goes stale at the first re-orthonormalisation")
-    if "tallqr(V, MV=M.mm(V))" in isrc and "tallqr(V)" in isrc:
+    from ..model import has_form as _hf
+    if _hf(iv.node, "tallqr(V, MV=M.mm(V))", "tallqr(V)"):
         D.ok(iv.fq, "the initial block is (M-)orthonormalised the same way")
     else:
         D.bad(iv, iv.node, "the initial guess must be orthonormalised with tallqr(V, MV=M.mm(V)) / tallqr(V)")
@@ -533,7 +535,10 @@ def _svd(model: Model, S: RuleResult):
         else:
             S.bad(f, f_if, "%s: the eigenvectors must become %s and the other factor %s = A.%s(%s) / s" % (case, eig_side, other, prod, eig_side))
     src = ast.unparse(f.node)
-    if "eivals = torch.clamp(eivals, min=0.0)" in src and "s = torch.sqrt(eivals)" in src and "vh = v.transpose(-2, -1).conj()" in src:
+    from ..model import has_form as _hf2
+    vh_ok = any(isinstance(s_, ast.Assign) and ast.unparse(s_.targets[0]) == "vh" and ncalg.is_adjoint_expr(s_.value, False) is not None and
+                ast.unparse(ncalg.is_adjoint_expr(s_.value, False)) == "v" for s_ in own_nodes(f.node))
+    if _hf2(f.node, "eivals = torch.clamp(eivals, min=0.0)", "s = torch.sqrt(eivals)") and vh_ok:
         S.ok(f.fq, "s = sqrt(max(eigenvalue, 0)) (non-negative) and vh is the conjugate transpose of v")
     else:
         S.bad(f, f.node, "singular values must be sqrt of the clamped eigenvalues and vh the conjugate transpose of v")
@@ -575,7 +580,8 @@ def _validation(model: Model, V: RuleResult):
     else:
         V.bad(f, f.node, "the Hermiticity / shape checks of M must run whenever M is given")
     src = ast.unparse(f.node)
-    if "if neig is None:\n        neig = A.shape[-1]" in src:
+    from ..model import has_form as _hf3
+    if _hf3(f.node, "if neig is None:\n    neig = A.shape[-1]"):
         V.ok(f.fq, "neig defaults to the full size")
     else:
         V.bad(f, f.node, "neig must default to A.shape[-1]")
